@@ -596,7 +596,11 @@ class NonlinearConstraints:
         )
 
     def violation(self, x, cub_val=None, ceq_val=None):
-        return np.concatenate([pc.violation(x) for pc in self.pcs])
+        if cub_val is None or ceq_val is None:
+            cub_val, ceq_val = self(x)
+        return np.concatenate(
+            (np.maximum(cub_val, 0.0), np.abs(ceq_val))
+        )
 
 
 class Problem:
